@@ -95,6 +95,11 @@ func TestBig(t *testing.T) {
 		h, inc := RunWithWatchdog(c, m, 120*time.Second)
 		if inc != nil {
 			writeInconclusive(inc.Error())
+			if !settle(90 * time.Second) {
+				writeInconclusive("stopped: an abandoned scheduler is still alive")
+				log.close()
+				os.Exit(0)
+			}
 			rt.Skip(inc.Error())
 		}
 		mine, other := relevant(Check(c, h))
@@ -150,6 +155,11 @@ func TestHistory(t *testing.T) {
 				h, inc := RunWithWatchdog(c, m, 30*time.Second)
 				if inc != nil {
 					writeInconclusive(inc.Error())
+					if !settle(90 * time.Second) {
+						writeInconclusive("stopped: an abandoned scheduler is still alive")
+						log.close()
+						os.Exit(0)
+					}
 					rt.Skip(inc.Error())
 				}
 				mine, other := relevant(Check(c, h))
